@@ -39,6 +39,8 @@ def programs(ctx):
                       {"describe": "impl Sub for Sl<'_> { type Output = Self; .. }  derive_ex(Sub)"}))
     out.append(E.Prog("p_kf_self_assoc_const", "#[derive(Clone)] pub struct Sn(pub u8);\nimpl Sn { pub const N: usize = 2; }\n#[derive_ex::derive_ex(Add)]\nimpl core::ops::Add for Sn { type Output = [u8; Self::N]; fn add(self, r: Sn) -> [u8; 2] { [self.0, r.0] } }\n" + rp, [],
                       {"describe": "impl Add for Sn { type Output = [u8; Self::N]; .. }  derive_ex(Add)"}))
+    out.append(E.Prog("p_kf_cfg_output", "#[derive(Clone)] pub struct Sc(pub u8);\n#[derive_ex::derive_ex(Sub)]\nimpl core::ops::Sub for Sc { #[cfg(any())] type Output = i16; #[cfg(all())] type Output = Sc; fn sub(self, r: Sc) -> Sc { Sc(self.0 - r.0) } }\n" + rp, [],
+                      {"describe": "impl Sub for Sc { #[cfg(any())] type Output = i16; #[cfg(all())] type Output = Sc; .. }  derive_ex(Sub)"}))
     # the one recorded finding of this property, always re-observed: `Self` in the where-clause of an impl for `&T`
     out.append(fam2.c09_prog("p_%04d" % i, "Sub", True, True, False, ("bin",), generic=True, self_in_where=True))
     return out
